@@ -4,6 +4,11 @@
 cd "$(dirname "$(readlink -f "$0")")" || exit 2
 [ -n "$(git -C /repo status --porcelain)" ] && { echo "repo dirty"; exit 2; }
 export VERIF_EVIDENCE_DIR="$PWD/.build/mutant-evidence"
+# the run takes about an hour: work on a frozen copy of the harness so that edits made meanwhile do not matter
+snap=$(mktemp -d /tmp/verif-harness-snap.XXXXXX)
+cp -r harness/. "$snap"/
+export VERIF_HARNESS_DIR="$snap"
+trap 'rm -rf "$snap"' EXIT
 miss=0
 for d in seeded/*/; do
   name=$(basename "$d")
